@@ -66,12 +66,14 @@ func runC27(c *Ctx) {
 	}
 
 	c.Rule("R27d", "lookups: Get/GetLatest/GetFromCommandLine/List hand out jobs[i] only where `_hasTerminated(i)` is known false for the same i; Get maps %n to index n-1 after rejecting n<1 and n>len; List prints index i as i+1; _hasTerminated(i) is jobs[i]==nil || jobs[i].HasTerminated()")
-	for _, name := range []string{"Get", "GetLatest", "GetFromCommandLine", "List"} {
-		fd, _ := c.MustFunc("R27d", "lang", "jobs", name)
-		if fd == nil {
-			continue
+	// every function of the package that hands out a table slot is checked, not only the four
+	// lookups known today: a helper the lookups delegate to (`_latest(match)`) carries the same duty.
+	handOuts := map[string]int{}
+	eachFunc(pk, func(fd *ast.FuncDecl) {
+		if fd.Body == nil {
+			return
 		}
-		nOut := 0
+		name := fd.Name.Name
 		hdefs := localDefs(info, fd.Body)
 		walkStack(fd.Body, func(nd ast.Node, stack []ast.Node) bool {
 			var outs []ast.Expr
@@ -87,7 +89,7 @@ func runC27(c *Ctx) {
 				if !ok || !isField(info, ix.X, jobsT, "jobs") {
 					continue
 				}
-				nOut++
+				handOuts[name]++
 				guarded := false
 				for _, f := range factsOf(guardsAt(info, stack)) {
 					if call, ok := unparen(f.E).(*ast.CallExpr); ok && !f.True {
@@ -100,7 +102,53 @@ func runC27(c *Ctx) {
 			}
 			return true
 		})
-		if nOut == 0 {
+		// a scan that looks for a job visits every slot: `for i := len-1; i >= 0; i--`, `for i := 0; i < len; i++`
+		// or `range jobs` (a scan that stops at 1 never finds job %1; one that starts at len-2 never finds the newest)
+		if recvName(fd) == "jobs" && name != "GarbageCollect" {
+			ast.Inspect(fd.Body, func(nd ast.Node) bool {
+				loop, ok := nd.(*ast.ForStmt)
+				if !ok {
+					return true
+				}
+				uses := false
+				ast.Inspect(loop.Body, func(m ast.Node) bool {
+					if ix, ok := m.(*ast.IndexExpr); ok && isField(info, ix.X, jobsT, "jobs") {
+						uses = true
+					}
+					if call, ok := m.(*ast.CallExpr); ok && callIs(info, call, mx("lang"), "jobs", "_hasTerminated") {
+						uses = true
+					}
+					return true
+				})
+				if !uses {
+					return true
+				}
+				c.Check(c.jobsScanCoversAll(info, fd, loop), "R27d", name+":scan-covers-every-slot", loop.Pos(), "the lookup scan in jobs.%s visits every slot of the table, index 0 and index len-1 included (%s; %s; %s)", name, c.src(loop.Init), c.src(loop.Cond), c.src(loop.Post))
+				return true
+			})
+		}
+	})
+	for _, name := range []string{"Get", "GetLatest", "GetFromCommandLine", "List"} {
+		fd, _ := c.MustFunc("R27d", "lang", "jobs", name)
+		if fd == nil || handOuts[name] > 0 {
+			continue
+		}
+		// delegation: the function returns what another hand-out function of the table returns
+		deleg := false
+		ddefs := localDefs(info, fd.Body)
+		ast.Inspect(fd.Body, func(nd ast.Node) bool {
+			if r, ok := nd.(*ast.ReturnStmt); ok {
+				for _, o := range r.Results {
+					if call, ok := unparen(ddefs.resolve1(info, o)).(*ast.CallExpr); ok {
+						if fn, ok := callee(info, call).(*types.Func); ok && fn.Pkg() != nil && fn.Pkg().Path() == mx("lang") && handOuts[fn.Name()] > 0 {
+							deleg = true
+						}
+					}
+				}
+			}
+			return true
+		})
+		if !deleg {
 			c.Lost("R27d", name+":hand-out", "jobs.%s no longer returns a table slot", name)
 		}
 	}
@@ -507,4 +555,96 @@ func (c *Ctx) checkJobsGC(info *types.Info, fd *ast.FuncDecl) {
 		}
 	}
 	c.Check(initNeg && guardOK, "R27c", "GarbageCollect:truncate-guard", trunc.Pos(), "the truncation jobs[:last] is not executed for the initial (negative) value of last (init-negative=%v guarded=%v)", initNeg, guardOK)
+}
+
+// jobsScanCoversAll: the for loop runs its index over exactly 0..len(jobs)-1, in either direction.
+func (c *Ctx) jobsScanCoversAll(info *types.Info, fd *ast.FuncDecl, loop *ast.ForStmt) bool {
+	as, ok := loop.Init.(*ast.AssignStmt)
+	if !ok || len(as.Lhs) != 1 || len(as.Rhs) != 1 || loop.Cond == nil {
+		return false
+	}
+	id, ok := as.Lhs[0].(*ast.Ident)
+	if !ok {
+		return false
+	}
+	iObj := info.ObjectOf(id)
+	// the index is stepped by the post statement only
+	stepped := false
+	ast.Inspect(loop.Body, func(nd ast.Node) bool {
+		switch s := nd.(type) {
+		case *ast.AssignStmt:
+			for _, l := range s.Lhs {
+				if li, ok := l.(*ast.Ident); ok && info.ObjectOf(li) == iObj {
+					stepped = true
+				}
+			}
+		case *ast.IncDecStmt:
+			if li, ok := s.X.(*ast.Ident); ok && info.ObjectOf(li) == iObj {
+				stepped = true
+			}
+		}
+		return true
+	})
+	inc, ok := loop.Post.(*ast.IncDecStmt)
+	if !ok || stepped {
+		return false
+	}
+	if pi, ok := inc.X.(*ast.Ident); !ok || info.ObjectOf(pi) != iObj {
+		return false
+	}
+	defs := localDefs(info, fd)
+	isLen := func(e ast.Expr) bool {
+		call, ok := isBuiltinCall(info, defs.resolve1(info, e), "len")
+		return ok && len(call.Args) == 1 && isField(info, call.Args[0], jobsT, "jobs")
+	}
+	if inc.Tok == token.DEC {
+		b, ok := unparen(as.Rhs[0]).(*ast.BinaryExpr)
+		if !ok || b.Op != token.SUB || !isLen(b.X) {
+			return false
+		}
+		if v, ok := constInt(info, b.Y); !ok || v != 1 {
+			return false
+		}
+		x, op, k, ok := cmpNorm(info, loop.Cond)
+		if !ok {
+			return false
+		}
+		xi, ok := x.(*ast.Ident)
+		return ok && info.ObjectOf(xi) == iObj && samePredOnRange(intPred(op, k), func(v int64) bool { return v >= 0 }, -2, 3)
+	}
+	// ascending: i := 0; i < len(jobs) (or i <= len(jobs)-1, i != len(jobs)); i++
+	if v, ok := constInt(info, as.Rhs[0]); !ok || v != 0 {
+		return false
+	}
+	b, ok := unparen(loop.Cond).(*ast.BinaryExpr)
+	if !ok {
+		return false
+	}
+	l, r, op := b.X, b.Y, b.Op
+	if li, ok := unparen(r).(*ast.Ident); ok && info.ObjectOf(li) == iObj { // len(jobs) > i
+		l, r = r, l
+		switch op {
+		case token.GTR:
+			op = token.LSS
+		case token.GEQ:
+			op = token.LEQ
+		case token.LSS:
+			op = token.GTR
+		case token.LEQ:
+			op = token.GEQ
+		}
+	}
+	if li, ok := unparen(l).(*ast.Ident); !ok || info.ObjectOf(li) != iObj {
+		return false
+	}
+	switch op {
+	case token.LSS, token.NEQ:
+		return isLen(r)
+	case token.LEQ:
+		if rb, ok := unparen(r).(*ast.BinaryExpr); ok && rb.Op == token.SUB && isLen(rb.X) {
+			v, ok := constInt(info, rb.Y)
+			return ok && v == 1
+		}
+	}
+	return false
 }
